@@ -73,9 +73,15 @@ def arithmetic_family(w, seed, spec):
                     fails.append(f'{sym} on an int32 operator raised {type(e).__name__}')
                 elif not K.close(r, want):
                     fails.append(f'{sym} on an int32 operator: got {r}, expected {want}')
-        # mismatching structures are rejected
-        other = g.square_atoms(K.S((5,)))
-        for (na, a), (nb, b) in itertools.product(ops[:4], other[:3]):
+        # mismatching structures are rejected — for EVERY pair of operand kinds (plain, composition, sum, lazy inverse on
+        # both sides: each pair takes its own route through the dunders)
+        oatoms = g.square_atoms(K.S((5,)))
+        other = list(oatoms[:3])
+        other.append(('C5', CompositionOperator([oatoms[0][1], oatoms[-1][1]])))
+        other.append(('S5', AdditionOperator([oatoms[0][1], oatoms[-1][1]])))
+        composites = [o for o in ops if o[0] in ('C', 'S') or o[0].endswith('.I')]
+        for (na, a), (nb, b) in list(itertools.product(ops[:4] + composites, other)) + \
+                [((nb, b), (na, a)) for (na, a), (nb, b) in itertools.product(composites, other)]:
             for sym, f in (('@', lambda: a @ b), ('+', lambda: a + b), ('-', lambda: a - b)):
                 r, e = _try(f)
                 if not isinstance(e, ValueError):
